@@ -141,3 +141,49 @@ contract('nfc.llcp.tco:DataLinkConnection.enqueue', 'C07',
          dict(self=tco('DataLinkConnection', send_queue=ListOf(Any(), kind='deque'), **DLC_EXTRA), rcvd_pdu=INPDU()),
          name='C07/dlc.enqueue.never-blocks', hooks={'on_wait': no_untimed_wait},
          ensures=[('O-returns', 'True')], raises={}, native=False)
+
+# str(pdu) is evaluated eagerly where received PDUs are logged (llc.dispatch: log.debug("     " + str(p)) for every
+# member of an aggregate; dispatch()/enqueue() format the PDU) - in the link thread and whatever the log level.
+# The encoding treats log calls as no-ops, so the string conversions of the PDUs the peer controls are put under
+# contract on their own: for every field value a decoded PDU can carry (service names and data are arbitrary
+# octets) __str__ raises nothing
+STR_PDUS = {
+    'Symmetry': dict(ptype=0, dsap=0, ssap=0),
+    'ParameterExchange': dict(ptype=1, dsap=0, ssap=0, _version=Opt(Byte()), _miux=Opt(Int(0, 0x7FF)),
+                              _wks=Opt(Int(0, 0xFFFF)), _lto=Opt(Byte()), _opt=Opt(Byte())),
+    'AggregatedFrame': dict(ptype=2, dsap=0, ssap=0, _aggregate=Fixed([])),
+    'UnnumberedInformation': dict(ptype=3, dsap=SAP(), ssap=SAP(), data=Bytes(0, None)),
+    'Connect': dict(ptype=4, dsap=SAP(), ssap=SAP(), miu=Int(128, 2175), rw=Int(0, 15), sn=Opt(Bytes(0, 255))),
+    'Disconnect': dict(ptype=5, dsap=SAP(), ssap=SAP()),
+    'ConnectionComplete': dict(ptype=6, dsap=SAP(), ssap=SAP(), miu=Int(128, 2175), rw=Int(0, 15)),
+    'DisconnectedMode': dict(ptype=7, dsap=SAP(), ssap=SAP(), reason=Byte()),
+    'FrameReject': dict(ptype=8, dsap=SAP(), ssap=SAP(), rej_flags=Int(0, 15), rej_ptype=Int(0, 15), ns=SEQ(), nr=SEQ(),
+                        vs=SEQ(), vr=SEQ(), vsa=SEQ(), vra=SEQ()),
+    'Information': dict(ptype=12, dsap=SAP(), ssap=SAP(), ns=SEQ(), nr=SEQ(), data=Bytes(0, None)),
+    'ReceiveReady': dict(ptype=13, dsap=SAP(), ssap=SAP(), ns=0, nr=SEQ()),
+    'ReceiveNotReady': dict(ptype=14, dsap=SAP(), ssap=SAP(), ns=0, nr=SEQ()),
+}
+for _cls, _f in STR_PDUS.items():
+    contract(PP + _cls + '.__str__', 'C07', dict(self=Obj(PP + _cls, _partial=False, **_f)),
+             name='C07/pdu.%s.__str__' % _cls, hooks={'opaque_str': False}, ensures=[('O-returns', 'True')],
+             raises={}, native=False)
+
+# C18: connect() keeps one link controller for several activation attempts; the outcome of activate() must be
+# that of THIS attempt - true exactly when this MAC was installed - whatever an earlier attempt left behind
+for cls in ('Initiator', 'Target'):
+    contract(L + 'LogicalLinkController.activate', 'C18',
+             dict(self=Obj(L + 'LogicalLinkController', _partial=False,
+                           link=Obj(L + 'LogicalLinkController.LinkState', _partial=False,
+                                    names=("SHUTDOWN", "LISTEN", "CONNECT", "CONNECTED", "ESTABLISHED",
+                                           "DISCONNECT", "CLOSED"), value=0),
+                           cfg=DictOf({'recv-miu': Int(128, 2175), 'send-lto': Int(0, 2550),
+                                       'send-lsc': Int(0, 3), 'send-agf': Bool(), 'llcp-sec': Bool()}),
+                           snl=DictOf({b'urn:nfc:sn:sdp': 1}), sap=None, sec=None, lock=Lock(),
+                           mac=Opt(Obj(DEP + cls, rwt=Const(0.01)))),
+                  mac=Obj(DEP + cls, rwt=Const(0.01))),
+             name='C18/llc.activate.%s.fresh' % cls.lower(),
+             use=['C07/%s.activate.anybytes' % cls, 'C07/ParameterExchange.decode'],
+             ensures=[('post.fresh', 'result == (self.mac is mac)'),
+                      ('post.failed', 'implies(call_ret("C07/%s.activate.anybytes") is None, '
+                                      'result == False and self.mac is None)' % cls)],
+             raises={}, loops=SIMPLE_LOOPS)
